@@ -95,8 +95,9 @@ func (b *Batch) Put(key []byte, value []byte) error {
 		b.cachedDataSize += newSize
 	} else {
 		// 如果缓存命中则直接修改缓存
-		logRecord.Key = key
-		logRecord.Value = value
+		// 覆盖此前暂存的删除操作时需恢复记录类型
+		logRecord.Type = datafile.LogRecordNormal
+		logRecord.Value = append(logRecord.Value[:0], value...)
 		b.cachedDataSize += newSize - oldSize
 	}
 	return nil
